@@ -302,22 +302,30 @@ density_sketch<T, K, A> density_sketch<T, K, A>::deserialize(std::istream& is, c
 
   const auto num_retained = read<uint32_t>(is);
   const auto n = read<uint64_t>(is);
+  if (!is.good()) throw std::runtime_error("error reading from std::istream");
 
   // levels arrays
-  size_t pt_size = sizeof(T) * dim;
   Levels levels(allocator);
   int64_t num_to_read = num_retained; // num_retrained is uint32_t so this allows error checking
+  const size_t chunk = 4096; // the stream length is unknown: never allocate more than one chunk ahead of the data
   while (num_to_read > 0) {
     const auto level_size = read<uint32_t>(is);
+    if (!is.good()) throw std::runtime_error("error reading from std::istream");
+    if (level_size > num_to_read) throw std::runtime_error("Error deserializing sketch: Incorrect number of items read");
     Level lvl(allocator);
-    lvl.reserve(level_size);
     for (uint32_t i = 0; i < level_size; ++i) {
-      Vector pt(dim, 0, allocator);
-      read(is, pt.data(), pt_size);
-      lvl.push_back(pt);
+      Vector pt(allocator);
+      for (size_t done = 0; done < dim; ) {
+        const size_t m = std::min<size_t>(chunk, dim - done);
+        pt.resize(done + m, 0);
+        read(is, pt.data() + done, m * sizeof(T));
+        if (!is.good()) throw std::runtime_error("error reading from std::istream");
+        done += m;
+      }
+      lvl.push_back(std::move(pt));
     }
-    levels.push_back(lvl);
-    num_to_read -= lvl.size();
+    levels.push_back(std::move(lvl));
+    num_to_read -= level_size;
   }
 
   if (num_to_read != 0)
@@ -373,18 +381,20 @@ density_sketch<T, K, A> density_sketch<T, K, A>::deserialize(const void* bytes, 
   Levels levels(allocator);
   int64_t num_to_read = num_retained; // num_retained is uint32_t so this allows error checking
   while (num_to_read > 0) {
+    ensure_minimum_memory(end_ptr - ptr, sizeof(uint32_t));
     uint32_t level_size;
     ptr += copy_from_mem(ptr, level_size);
+    if (level_size > num_to_read) throw std::runtime_error("Error deserializing sketch: Incorrect number of items read");
     ensure_minimum_memory(end_ptr - ptr, level_size * pt_size);
     Level lvl(allocator);
     lvl.reserve(level_size);
     for (uint32_t i = 0; i < level_size; ++i) {
       Vector pt(dim, 0, allocator);
-      ptr += copy_from_mem(ptr, pt.data(), pt_size);
-      lvl.push_back(pt);
+      if (pt_size > 0) ptr += copy_from_mem(ptr, pt.data(), pt_size);
+      lvl.push_back(std::move(pt));
     }
-    levels.push_back(lvl);
-    num_to_read -= lvl.size();
+    levels.push_back(std::move(lvl));
+    num_to_read -= level_size;
   }
 
   if (num_to_read != 0)
